@@ -142,6 +142,36 @@ pub fn all_text(d: &[u8], obs: &mut Obs, case: &str) {
     let mut n = 0;
     while let Ok(Some(_)) = r.next() { n += 1; if n > 100000 { break; } }
     let _ = r.position();
+    // over-read detection: the same bytes as a sub-slice of a larger allocation, followed by guard
+    // bytes that would change the result if a scanner looked one byte too far; the result must not
+    // depend on the guard (and must equal the plain run)
+    {
+        let plain_tape = TextTape::from_slice(d).ok().map(|t| crate::show::text_tape(t.tokens()));
+        let plain_toks = { let mut r = TextReader::from_slice(d); let mut v = String::new(); loop { match r.next() { Ok(Some(t)) => { v.push_str(&crate::show::text_lex_tok(&t)); v.push(','); } Ok(None) => { v.push_str("end"); break; } Err(_) => { v.push_str("err"); break; } } } v };
+        for guard in [&b"{{{{{{{{{{{{{{{{{"[..], b"}}}}}}}}}}}}}}}}}", b"\"\"\"\"\"\"\"\"\"\"\"\"\"\"\"\"\"", b"=================", b"aaaaaaaaaaaaaaaaa", b"\\\\\\\\\\\\\\\\\\\\\\\\\\\\\\\\\\"] {
+            let mut big = d.to_vec();
+            big.extend_from_slice(guard);
+            let sub = &big[..d.len()];
+            let t = TextTape::from_slice(sub).ok().map(|t| crate::show::text_tape(t.tokens()));
+            if t != plain_tape { obs.violation("over-read-text-tape", case, &format!("tape depends on the bytes AFTER the slice (guard {:?})", String::from_utf8_lossy(&guard[..2]))); }
+            let toks = { let mut r = TextReader::from_slice(sub); let mut v = String::new(); loop { match r.next() { Ok(Some(t)) => { v.push_str(&crate::show::text_lex_tok(&t)); v.push(','); } Ok(None) => { v.push_str("end"); break; } Err(_) => { v.push_str("err"); break; } } } v };
+            if toks != plain_toks { obs.violation("over-read-text-reader", case, &format!("slice reader depends on the bytes AFTER the slice (guard {:?})", String::from_utf8_lossy(&guard[..2]))); }
+        }
+        // recycled buffers pre-filled with significant bytes: stale data must never be looked at
+        for fill in [b'{', b'}', b'"', b'\\'] {
+            for (cap, step) in [(8usize, 8usize), (9, 9), (16, 8), (24, 3), (64, 64)] {
+                let rd = SchedReader::new(d, vec![Step::Repeat(step)]);
+                let mut r = TextReader::builder().buffer(vec![fill; cap].into_boxed_slice()).build(rd);
+                let mut v = String::new();
+                loop { match r.next() { Ok(Some(t)) => { v.push_str(&crate::show::text_lex_tok(&t)); v.push(','); } Ok(None) => { v.push_str("end"); break; } Err(_) => { v.push_str("err"); break; } } }
+                let rd = SchedReader::new(d, vec![Step::Repeat(step)]);
+                let mut r = TextReader::builder().buffer(vec![b' '; cap].into_boxed_slice()).build(rd);
+                let mut w = String::new();
+                loop { match r.next() { Ok(Some(t)) => { w.push_str(&crate::show::text_lex_tok(&t)); w.push(','); } Ok(None) => { w.push_str("end"); break; } Err(_) => { w.push_str("err"); break; } } }
+                if v != w { obs.violation("stale-buffer-text-reader", case, &format!("tokens depend on stale buffer contents (fill {:?}, cap {}, step {})", fill as char, cap, step)); }
+            }
+        }
+    }
     for (cap, step) in [(1usize, 1usize), (2, 1), (3, 2), (8, 3), (9, 9), (16, 5), (64, 64), (4096, 7)] {
         let rd = SchedReader::new(d, vec![Step::Repeat(step)]);
         let mut r = TextReader::builder().buffer_len(cap).build(rd);
@@ -215,6 +245,19 @@ pub fn all_bin(d: &[u8], obs: &mut Obs, _case: &str) {
     }
     let mut t3 = BinaryTape::default();
     let _ = jomini::binary::BinaryTapeParser.parse_slice_into_tape_unoptimized(d, &mut t3);
+    // over-read detection for the binary side: guard bytes after the slice must not matter
+    {
+        let plain = BinaryTape::from_slice(d).ok().map(|t| crate::show::bin_tape(t.tokens()));
+        let lex = |d: &[u8]| { let mut lx = Lexer::new(d); let mut v = String::new(); loop { match lx.next_token() { Ok(Some(t)) => { v.push_str(&crate::show::bin_lex_tok(&t)); v.push(','); } Ok(None) => { v.push_str("end"); break; } Err(_) => { v.push_str("err"); break; } } } v };
+        let plain_lex = lex(d);
+        for guard in [&[3u8, 0, 3, 0, 3, 0, 3, 0, 3, 0][..], &[4, 0, 4, 0, 4, 0, 4, 0, 4, 0], &[0x0c, 0, 1, 0, 0, 0, 0x0c, 0, 1, 0], &[0xff; 10], &[1, 0, 1, 0, 1, 0, 1, 0, 1, 0]] {
+            let mut big = d.to_vec();
+            big.extend_from_slice(guard);
+            let sub = &big[..d.len()];
+            if BinaryTape::from_slice(sub).ok().map(|t| crate::show::bin_tape(t.tokens())) != plain { obs.violation("over-read-bin-tape", _case, "binary tape depends on the bytes AFTER the slice"); }
+            if lex(sub) != plain_lex { obs.violation("over-read-bin-lexer", _case, "binary lexer depends on the bytes AFTER the slice"); }
+        }
+    }
     // lexer
     let mut lx = Lexer::new(d);
     let mut n = 0;
@@ -396,6 +439,20 @@ pub fn gen(g: &mut Gen) {
     enumerate(&bin_alpha, bl, &mut |s| lines.push(format!("x-bin {}", hex(s))));
     g.count("bin-exhaustive");
     for l in lines { g.emit(l); }
+    // blank runs of every length 0..20 (tabs / newlines / spaces) followed by nothing or one token:
+    // the 8-byte word scanners change path at exactly 8 and 9 remaining bytes
+    for blank in [b'\t', b'\n', b' '] {
+        for n in 0..=20usize {
+            for tail in [&b""[..], b"a", b"{", b"}", b"\"a\"", b"a=b", b"#c"] {
+                let mut v = vec![blank; n];
+                v.extend_from_slice(tail);
+                g.emit(format!("x-text {}", hex(&v)));
+                let mut v2 = tail.to_vec();
+                v2.extend(std::iter::repeat(blank).take(n));
+                g.emit(format!("x-text {}", hex(&v2)));
+            }
+        }
+    }
     // 2. generated documents, mutated / truncated / spliced
     let n = g.budget(1500, 30000);
     for _ in 0..n {
